@@ -244,13 +244,16 @@ def run_schedule(ctx, chunks, f, sched_bits, ops, reals):
 
 
 def check(ctx):
-    ctx.rule = ('correspondence: the REAL DecodeThread (instrumented Event/deque = scheduling points, real append()/run()) vs the Lean fine-grained '
+    ctx.rule = ('proof: chunking theorem C13 over an abstract dispatcher with pure rejections; C13_wrapper: for the protocols whose traced decode() trees meet the kernel-checked obligation c13OK '
+                'a rejected candidate leaves the decoder instance unchanged, so the theorem applies with that protocol\'s decode() as the dispatcher; '
+                'correspondence: the REAL DecodeThread (instrumented Event/deque = scheduling points, real append()/run()) vs the Lean fine-grained '
                 'machine under identical schedules: streams of 2-4 frames from a pool (incl. inner-gap and garbage frames), chunkings {one call, one duration '
                 'at a time, random cuts}, schedules {worker-first, feeder-first, random, feeder step inserted at every worker position}; after every worker step '
                 'outputs, program point, flag, decode_universal and buffer are compared. search: for every schedule the delivered sequence must equal the '
                 'one-call sequence and the thread must be alive; plus real dispatcher/real protocol frames (NEC, Sony12, RC5, JVC, ...) through '
                 'protocols.stream_decode-equivalent runs for each chunking. non-trivial = schedule with >= 2 chunks')
-    vlib.prove(ctx, MODULES)
+    from props import engine_prove
+    tabs, ok = engine_prove.prove(ctx, MODULES, with_obligations=False, with_wrappers=True, wrap_kinds=('c13',))
     r = vlib.rng('c13')
     pool = frames_pool()
     ops, reals = [], []
